@@ -71,3 +71,10 @@ package stacktrace
 //@   loop 1 invariant sf.b == old(sf.b) && sf.b != nil && stack.frames == old(stack.frames)
 //@   loop 1 invariant elems_frame(type(uint8), old(sf.b.bs)) && (arr(sf.b.bs) == old(arr(sf.b.bs)) || fresh(sf.b.bs))
 //@   loop 1 invariant only_changed(buffer.Buffer.bs, sf.b)
+
+// Take is the formatted form of Capture(skip+1, Full) (used by zap.Stack and the slog handler);
+// its text is outside, only "no state of zap's changes" is assumed of it here.
+//@ func internal/stacktrace.Take
+//@   props C15 C18
+//@   flags nopanic trusted
+//@   modifies nothing
